@@ -184,26 +184,58 @@ Proof.
   - split; [|exact Hout]. intros j Hj. rewrite Hin by exact Hj. apply nth_as_wires_bw. exact Hj.
 Qed.
 
+(* two's complement range test of _convert_int: (v >> bw-1) == -1 *)
+Lemma shiftr_minus_one v bw : (1 <= bw)%nat ->
+  (Z.shiftr v (Z.of_nat bw - 1) =? -1) = true <-> - 2 ^ (Z.of_nat bw - 1) <= v < 0.
+Proof.
+  intros Hbw. rewrite Z.eqb_eq. rewrite Z.shiftr_div_pow2 by lia.
+  pose proof (pow2_pos (Z.of_nat bw - 1) ltac:(lia)) as Hp. set (p := 2 ^ (Z.of_nat bw - 1)) in *.
+  pose proof (Z.div_mod v p ltac:(lia)) as Hd. pose proof (Z.mod_pos_bound v p Hp) as Hm.
+  split; intros H.
+  - rewrite H in Hd. lia.
+  - assert (Hq : v / p < 0) by (apply Z.div_lt_upper_bound; lia).
+    assert (Hq2 : -1 <= v / p) by (apply Z.div_le_lower_bound; lia). lia.
+Qed.
+
+Lemma conv_int_spec v tr bw b : (1 <= bw)%nat -> conv_int v tr bw = Some b ->
+  length b = bw /\
+  (tr = true \/ - 2 ^ (Z.of_nat bw - 1) <= v < 2 ^ Z.of_nat bw) /\
+  (forall j, (j < bw)%nat -> nth j b false = Z.testbit v (Z.of_nat j)).
+Proof.
+  intros Hbw H. unfold conv_int in H.
+  set (v' := if tr then Z.land v (2 ^ Z.of_nat bw - 1) else v) in *.
+  destruct (if 0 <=? v' then v' <? 2 ^ Z.of_nat bw else Z.shiftr v' (Z.of_nat bw - 1) =? -1) eqn:Ef; [|discriminate].
+  injection H as <-. split; [apply length_of_Z|]. split.
+  - destruct tr; [left; reflexivity|right]. unfold v' in Ef.
+    pose proof (pow2_pos (Z.of_nat bw - 1) ltac:(lia)) as Hp.
+    assert (Hpow : 2 ^ Z.of_nat bw = 2 * 2 ^ (Z.of_nat bw - 1)).
+    { replace (Z.of_nat bw) with (Z.succ (Z.of_nat bw - 1)) at 1 by lia. rewrite Z.pow_succ_r by lia. reflexivity. }
+    destruct (0 <=? v) eqn:E0.
+    + apply Z.ltb_lt in Ef. apply Z.leb_le in E0. lia.
+    + apply (shiftr_minus_one v bw Hbw) in Ef. lia.
+  - intros j Hj. rewrite nth_of_Z by exact Hj. unfold v'. destruct tr; [|reflexivity].
+    replace (2 ^ Z.of_nat bw - 1) with (Z.ones (Z.of_nat bw)) by (rewrite Z.ones_equiv; lia).
+    rewrite Z.land_spec, Z.ones_spec_low by lia. apply andb_true_r.
+Qed.
+
+(* int new value (any sign): bit j of the field is bit j of the two's complement of v, i.e. the int is
+   stored AT THE FIELD WIDTH (a negative value sign-fills the field); without truncating it must fit
+   in [-2^(m-1), 2^m) *)
 Theorem bitfield_update_int_spec : forall w s e v tr r,
   bitfield_update_int w s e v tr = Some r ->
   let idx := pyslice (seq 0 (length w)) s e in
   idx <> [] /\ length r = length w /\
-  (0 <= v < 2 ^ Z.of_nat (length idx) \/ tr = true) /\
+  (tr = true \/ - 2 ^ (Z.of_nat (length idx) - 1) <= v < 2 ^ Z.of_nat (length idx)) /\
   (forall j, (j < length idx)%nat -> nth (nth j idx 0%nat) r false = Z.testbit v (Z.of_nat j)) /\
   (forall i, ~ In i idx -> nth i r false = nth i w false).
 Proof.
   intros w s e v tr r H idx. unfold bitfield_update_int in H.
   destruct (bitfield_core_spec _ _ _ _ _ H) as (Hne & Hlen & nv' & Hc & Hl & Hin & Hout).
-  fold idx in Hne, Hc, Hl, Hin, Hout. unfold conv_int in Hc.
-  set (bw := length idx) in *.
-  set (v' := if tr then Z.land v (2 ^ Z.of_nat bw - 1) else v) in *.
-  destruct ((0 <=? v') && (v' <? 2 ^ Z.of_nat bw)) eqn:E; [|discriminate]. injection Hc as <-.
-  split; [exact Hne|]. split; [exact Hlen|]. split.
-  - destruct tr; [right; reflexivity|left; unfold v' in E; lia].
-  - split; [|exact Hout]. intros j Hj. rewrite Hin by exact Hj. rewrite nth_of_Z by exact Hj.
-    unfold v'. destruct tr; [|reflexivity].
-    replace (2 ^ Z.of_nat bw - 1) with (Z.ones (Z.of_nat bw)) by (rewrite Z.ones_equiv; lia).
-    rewrite Z.land_spec, Z.ones_spec_low by lia. apply andb_true_r.
+  fold idx in Hne, Hc, Hl, Hin, Hout.
+  assert (Hbw : (1 <= length idx)%nat) by (destruct idx; [congruence|cbn; lia]).
+  destruct (conv_int_spec _ _ _ _ Hbw Hc) as (_ & Hfit & Hbits).
+  split; [exact Hne|]. split; [exact Hlen|]. split; [exact Hfit|]. split; [|exact Hout].
+  intros j Hj. rewrite Hin by exact Hj. apply Hbits. exact Hj.
 Qed.
 
 (* ---------- bitfield_update_set ---------- *)
@@ -536,4 +568,66 @@ Proof.
     + apply Forall_forall. intros u2 H2. apply Hsym; [left; reflexivity|right; exact H2|].
       intro E. subst. contradiction.
     + apply IH; [exact Hnd''|]. intros u1 u2 H1 H2. apply Hsym; right; assumption.
+Qed.
+
+(* ---------- int new values in bitfield_update / bitfield_update_set ---------- *)
+(* an int that converts behaves exactly like the wire holding its field-width two's complement bits *)
+Theorem bitfield_update_int_as_wire : forall w s e v tr,
+  bitfield_update_int w s e v tr =
+  match conv_int v tr (length (pyslice (seq 0 (length w)) s e)) with
+  | Some b => bitfield_update w s e b false
+  | None => None
+  end.
+Proof.
+  intros w s e v tr. unfold bitfield_update_int, bitfield_update.
+  rewrite (bitfield_core_eq w s e (conv_int v tr)). rewrite pyslice_seq, seq_length.
+  set (a := fst (slice_bounds (length w) s e)). set (b := snd (slice_bounds (length w) s e)).
+  destruct (conv_int v tr (b - a)) as [bits|] eqn:Ec.
+  - rewrite (bitfield_core_eq w s e (fun bw => Some (as_wires_bw bits bw false))). fold a b.
+    destruct (Nat.leb b a) eqn:E; [reflexivity|].
+    assert (Hl : length bits = (b - a)%nat).
+    { unfold conv_int in Ec.
+      match type of Ec with (if ?c then _ else _) = _ => destruct c; [|discriminate] end.
+      injection Ec as <-. apply length_of_Z. }
+    assert (Ha : as_wires_bw bits (b - a) false = bits).
+    { unfold as_wires_bw. rewrite Hl, Nat.ltb_irrefl. reflexivity. }
+    rewrite Ha. reflexivity.
+  - destruct (Nat.leb b a); reflexivity.
+Qed.
+
+Lemma bitfield_update_nv_cases w s e tr :
+  (forall b, bitfield_update_nv w s e (NVw b) tr = bitfield_update w s e b tr) /\
+  (forall v, bitfield_update_nv w s e (NVi v) tr = bitfield_update_int w s e v tr).
+Proof. split; reflexivity. Qed.
+
+(* the set function on wire values is the wire-only model the set theorems are stated for *)
+Theorem bitfield_update_set_nv_wires : forall w ups tr,
+  bitfield_update_set_nv w (map (fun u => (fst u, NVw (snd u))) ups) tr = bitfield_update_set w ups tr.
+Proof.
+  intros w ups tr. unfold bitfield_update_set_nv, bitfield_update_set.
+  generalize (repeat false (length w)). revert w.
+  induction ups as [|[[s e] nv] rest IH]; intros w sl; [reflexivity|].
+  cbn [map fst snd bfus_rec_nv bfus_rec].
+  destruct (existsb (fun b : bool => b) (pyslice sl s e)); [reflexivity|].
+  change (bitfield_update_nv w s e (NVw nv) tr) with (bitfield_update w s e nv tr).
+  destruct (bitfield_update w s e nv tr) as [w'|]; [apply IH|reflexivity].
+Qed.
+
+(* ... and an int entry of a set acts as the wire holding its field-width two's complement *)
+Theorem bitfield_update_set_nv_int_step : forall w sl s e v tr rest,
+  bfus_rec_nv w sl (((s, e), NVi v) :: rest) tr =
+  if existsb (fun b : bool => b) (pyslice sl s e) then None else
+  match conv_int v tr (length (pyslice (seq 0 (length w)) s e)) with
+  | None => None
+  | Some b => match bitfield_update w s e b false with
+              | None => None
+              | Some w' => bfus_rec_nv w' (set_slice sl s e) rest tr
+              end
+  end.
+Proof.
+  intros w sl s e v tr rest. cbn [bfus_rec_nv].
+  destruct (existsb (fun b : bool => b) (pyslice sl s e)); [reflexivity|].
+  change (bitfield_update_nv w s e (NVi v) tr) with (bitfield_update_int w s e v tr).
+  rewrite bitfield_update_int_as_wire.
+  destruct (conv_int v tr (length (pyslice (seq 0 (length w)) s e))); reflexivity.
 Qed.
